@@ -25,7 +25,7 @@ pub fn progress() { PROGRESS.fetch_add(1, Ordering::Relaxed); }
 
 pub const REPORTER: &str = "amh-reporter";
 pub const BLOCKED_AFTER: Duration = Duration::from_millis(2000);
-pub const HARD_LIMIT: Duration = Duration::from_secs(120);
+pub const HARD_LIMIT: Duration = Duration::from_secs(300);
 
 #[derive(Debug, Clone)]
 pub enum Exit {
